@@ -352,6 +352,26 @@ func segmentation(rep *kit.Report, seeds [][]byte) {
 			}
 		}
 		rep.Class("segmentation/connection-sequence")
+		// a different hello on the next connection of the same listener, then this one again: each connection's record is its own
+		if si+1 < len(seeds) {
+			other := record(seeds[si+1])
+			rep.Eval(1)
+			var got []string
+			_, pv := safely(func() string {
+				got = httpserver.VerifRecordHellos([][][]byte{{rec}, {other}, {rec[:5], rec[5:]}}, cfg)
+				return ""
+			})
+			if pv != nil {
+				rep.Violation("C19/segmentation/panic", fmt.Sprint(pv), c19case{"connection sequence with two hellos", fmt.Sprintf("seed %d", si), fmt.Sprint(pv), ""})
+			} else {
+				for _, ci := range []int{0, 2} {
+					if got[ci] != ref {
+						rep.Violation(fmt.Sprintf("C19/segmentation/recorded-hello-depends-on-another-connection/conn%d", ci+1), "what was recorded for a connection differs once another connection with a different hello has been seen on the listener", c19case{"connection sequence with two hellos", fmt.Sprintf("seeds %d,%d", si, si+1), trunc(got[ci]), trunc(ref)})
+					}
+				}
+			}
+			rep.Class("segmentation/two-hellos")
+		}
 	}
 	rep.Sample(map[string]interface{}{"kind": "segmentation", "example": "ClientHello record delivered as reads of 5 + 1 + rest bytes; then a second connection"})
 }
